@@ -125,6 +125,31 @@ def bboxref_examples():
     assert near(B.box(B.map_curve(("E", (0, 0), (1, 0), (0, 1), 0.0, 2 * math.pi), m)), (3, 4, 7, 10))
 
 
+@check
+def quadrature_examples():
+    from .ref import quadrature as Q
+
+    # circle of radius 3, three quarters of a turn
+    L, e, cap = Q.length(("E", (1, 1), (3, 0), (0, 3), 0.5, 1.5 * math.pi))
+    assert near(L, 4.5 * math.pi * 1.0) and not cap
+    # ellipse 2 x 1 perimeter (complete elliptic integral) = 9.688448220547675...
+    L, e, cap = Q.length(("E", (0, 0), (2, 0), (0, 1), 0.0, 2 * math.pi))
+    assert near(L, 9.688448220547675, 1e-10), L
+    # quadratic (0,0) (1,0) (1,1): closed form 1.6232252401402305...  (known value of this standard example)
+    L, e, cap = Q.length(("P", [(0, 0), (1, 0), (1, 1)]))
+    assert near(L, 1.6232252401402305, 1e-10), L
+    # collinear cubic that overshoots: (0,0) (20,0) (-10,0) (10,0): x(t) = 60t - 150 t^2 + 100 t^3,
+    # x' = 60 - 300 t + 300 t^2 has roots 0.2764 and 0.7236: length = |x(r1)-x(0)| + |x(r2)-x(r1)| + |x(1)-x(r2)|
+    x = lambda t: 60 * t - 150 * t * t + 100 * t ** 3
+    r1, r2 = 0.5 - math.sqrt(0.05), 0.5 + math.sqrt(0.05)
+    want = abs(x(r1)) + abs(x(r2) - x(r1)) + abs(x(1) - x(r2))
+    L, e, cap = Q.length(("P", [(0, 0), (20, 0), (-10, 0), (10, 0)]))
+    assert near(L, want, 1e-9), (L, want)
+    # cubic that is a straight line with uniform speed
+    L, e, cap = Q.length(("P", [(0, 0), (1, 1), (2, 2), (3, 3)]))
+    assert near(L, 3 * math.sqrt(2))
+
+
 def main():
     failed = 0
     for f in CHECKS:
